@@ -13,7 +13,7 @@ BOUNDS = ("One operation from an arbitrary valid pre-state, NO feasibility preco
           "symbolic contents and symbolic capacity; Plate.transfer container->2 wells with symbolic capacity; fill_to "
           "in L/g/mol with symbolic target and capacity; dilute of binary NaCl/water and DMSO/water mixtures in M and "
           "g/L; create_solution (M+total volume, g/g+total mass, quantity+total) and create_solution_from (M, mL) with "
-          "symbolic values of either sign; a recipe transfer+fill_to through bake. Amounts in [0, 1e6] storage units, "
+          "symbolic values of either sign; a recipe transfer+fill_to through bake, and recipes drawing twice from one stock (transfer then create_solution with the stock as solvent / transfer). Amounts in [0, 1e6] storage units, "
           "requests in [-1e6, 1e6]. Lite rounding model for all cells, plus delta-model cells (functionally "
           "consistent rounding errors) for the exact-capacity requests: capacity and amount given by the same number.")
 OUTSIDE = ("IEEE rounding; dilute outside binary mixtures and fill_to with enzyme bystanders (decided under C11); the "
@@ -55,6 +55,9 @@ def cells(tier, seed):
         out.append({'id': f"plate/c->row/{unit}", 'fn': 'h_plate', 'round': 'lite', 'max_paths': 400, 'cost': 6,
                     'params': {'unit': unit}})
     out.append({'id': "bake/transfer+fill_to", 'fn': 'h_bake', 'round': 'lite', 'max_paths': 300, 'cost': 5, 'params': {}})
+    for second in ['solution', 'transfer']:
+        out.append({'id': f"bake/draw+{second}", 'fn': 'h_bake_draw', 'round': 'lite', 'max_paths': 300, 'cost': 5,
+                    'params': {'second': second}})
     # exact-capacity requests under the delta rounding model
     # (transfer is decided in the lite model only: moving the whole content converts volume -> moles -> volume, and
     #  under arbitrary bounded rounding errors that round trip can exceed the capacity by one unit in the last
@@ -348,6 +351,45 @@ def h_bake(h):
     h.require('bake:acceptance-justified', feas1 & h.all_of([h.gt(T, 0), h.ge(T, vB1, sl), h.le(T, cap, sl)]))
     for c in res.values():
         _valid_state(h, 'bake', c)
+
+
+def h_bake_draw(h):
+    """a recipe draws from a stock of pure water twice: transfer q out, then a step that needs w more.  The second
+    request is feasible iff it fits into what the first one left."""
+    C, Recipe = h.env.Container, h.env.Recipe
+    lib = Lib(h, ['water', 'NaCl'])
+    water, salt = lib['water'], lib['NaCl']
+    A = mk_container(h, lib, 'A', ['water'], lo=10, hi=10**6)
+    vA = lib.volume_storage(A.contents)               # uL
+    B = C('B')
+    q = h.real('q', 0, 10**5)
+    T = h.real('T', 1, 10**5)
+    r = Recipe().uses(A, B)
+    r.transfer(A, B, f"{q} uL")
+    second = h.p['second']
+    if second == 'solution':
+        # T uL of 0.1 M NaCl with A as solvent: the salt takes 0.1*T*1e-6 mol * 58.4428 g/mol / 1 g/mL
+        r.create_solution(salt, A, name='S', concentration='0.1 M', total_quantity=f"{T} uL")
+        need = T - T * Fr(1, 10) * Fr('58.4428') / 1000
+    else:
+        r.transfer(A, B, f"{T} uL")
+        need = T
+    try:
+        res = r.bake()
+    except Exception as e:  # noqa: BLE001
+        if _classify(h, e, 'bake'):
+            h.require('bake:refusal-justified', h.any_of([h.gt(q, vA), h.gt(q + need, vA)]),
+                      detail="both draws fit into the stock, yet bake refused")
+        return
+    h.outcome = 'ok'
+    sl = h.rs(8 * h.ulp)
+    h.require('bake:acceptance-justified', h.le(q + need, vA, sl),
+              detail="the recipe drew more from the stock than it held and bake did not raise")
+    for c in res.values():
+        _valid_state(h, 'bake', c)
+    taken = vA - lib.volume_storage(res['A'].contents)
+    h.require('bake:stock-depleted-by-both-draws', h.eq(taken, q + need, sl),
+              detail="what is left in the stock = what it held - both draws")
 
 
 def h_exact(h):
